@@ -99,20 +99,32 @@ def product {α : Type} : List (List α) → List (List α)
   | f :: rest => f.flatMap (fun x => (product rest).map (fun t => x :: t))
 
 /-- the inner loop L587-594 building one variant ballot: `var_vote[:i+offset] + var_part + var_vote[i+offset+1:]`,
-    then `offset += len(var_part)`.  QUIRK modelled as coded: the offset grows by the full length of the substituted
-    part although the substitution lengthens the ballot by one less, so from the second shared rank on the slice hits
-    the place AFTER the shared rank: that place is dropped, the shared rank itself stays on the ballot (as a set), and
-    its permutation is inserted behind it. -/
-def substitute : Ballot → Nat → List (Nat × List Cand) → Ballot
+    then `offset += len(var_part) - 1` (after fix c2fec8e: the substitution lengthens the ballot by one less than the
+    length of the permuted rank).  The offset is a Python int (`-1` per empty shared rank); `i + offset` is never
+    negative, as at most `i` ranks precede rank `i`. -/
+def substitute : Ballot → Int → List (Nat × List Cand) → Ballot
   | var, _, [] => var
   | var, offset, (i, part) :: rest =>
-    substitute (var.take (i + offset) ++ part.map RankItem.one ++ var.drop (i + offset + 1)) (offset + part.length) rest
+    let k := ((i : Int) + offset).toNat
+    substitute (var.take k ++ part.map RankItem.one ++ var.drop (k + 1)) (offset + (part.length : Int) - 1) rest
 
 /-- the variant ballots of one ballot (sequential.py L570-594), in the order of `itertools.product` over
     `itertools.permutations` of the shared ranks -/
 def variants (b : Ballot) : List Ballot :=
   let eq := sharedRanks 0 b
   (product (eq.map (fun ir => permsLex ir.2))).map (fun variant => substitute b 0 ((eq.map (·.1)).zip variant))
+
+/-- the loop as it was BEFORE fix c2fec8e (`offset += len(var_part)`): from the second shared rank on the slice hit the
+    place AFTER the shared rank — that place was dropped, the shared rank itself stayed on the ballot (as a set), and
+    its permutation was inserted behind it.  Kept only for the `prefix_…_witness` theorem. -/
+def substitutePreFix : Ballot → Nat → List (Nat × List Cand) → Ballot
+  | var, _, [] => var
+  | var, offset, (i, part) :: rest =>
+    substitutePreFix (var.take (i + offset) ++ part.map RankItem.one ++ var.drop (i + offset + 1)) (offset + part.length) rest
+
+def variantsPreFix (b : Ballot) : List Ballot :=
+  let eq := sharedRanks 0 b
+  (product (eq.map (fun ir => permsLex ir.2))).map (fun variant => substitutePreFix b 0 ((eq.map (·.1)).zip variant))
 
 /-- `PreferenceAddition._decouple_equal_rankings` (sequential.py L565-598): `new_votes = votes.copy()`; for every
     ballot with a shared rank `del new_votes[ballot]` and every variant receives `n_votes / len(variants)`, added
